@@ -1,9 +1,7 @@
 /*UNIT
 {
  "props": [
-  "C09",
-  "C10",
-  "C03"
+  "C09"
  ],
  "kind": "K2",
  "tier": "quick",
@@ -40,7 +38,8 @@
   }
  },
  "defines": [
-  "ZSTD_DECODER_INTERNAL_BUFFER=64", "VERIF_MEM_PRECISE64",
+  "ZSTD_DECODER_INTERNAL_BUFFER=64",
+  "VERIF_MEM_PRECISE64",
   "ONLY_STAGE=1"
  ],
  "extra_src": [
